@@ -591,6 +591,27 @@ def restructured_functions(text, linemap, info, units):
     return res
 
 
+def support_witness(pid, cfg, failures, seed, work, units):
+    """witness search for a property whose own clauses were not refuted (supporting contract failed, restructured or
+    externalised function): under the default feature set, for C16 under every feature set"""
+    import witness
+    if os.environ.get('VERIF_NO_WITNESS'):
+        return None
+    if not cfg.get('all_feature_sets'):
+        return witness.search_support(pid, failures, seed, work, units)
+    for fs in ALL_FEATURE_SETS:
+        try:
+            w = witness.search_support(pid, failures, seed, work, units, features=fs)
+        except RuntimeError as e:
+            if re.search(r'--> embedded-cli(-macros)?/src/', str(e)):
+                return {'driver': 'build', 'found': True, 'features': list(fs), 'input': 'cargo build --no-default-features --features macros,%s' % ','.join(fs),
+                        'expected': 'the library builds', 'actual': str(e)[-1500:], 'seed': seed or 1}
+            continue
+        if w:
+            return w
+    return None
+
+
 def undecided_witness(pid, cfg, all_undec, seed, work, units):
     if os.environ.get('VERIF_NO_WITNESS'):
         return None
@@ -820,7 +841,7 @@ def decide(pid, cfg, tier, seed, units, work, ev):
         w = None
         try:
             import witness
-            w = witness.search_support(pid, mine_restr, seed, work, units)
+            w = support_witness(pid, cfg, mine_restr, seed, work, units)
         except Exception as e:
             log('witness search failed: %s' % e)
         for f in mine_restr[:4]:
@@ -887,7 +908,7 @@ def decide(pid, cfg, tier, seed, units, work, ev):
         w = None
         try:
             import witness
-            w = witness.search_support(pid, [{'function': f} for f in affected], seed, work, units)
+            w = support_witness(pid, cfg, [{'function': f} for f in affected], seed, work, units)
         except Exception as e:
             log('witness search failed: %s' % e)
         for f in affected[:6]:
@@ -915,7 +936,7 @@ def decide(pid, cfg, tier, seed, units, work, ev):
         w = None
         try:
             import witness
-            w = witness.search_support(pid, sup, seed, work, units)
+            w = support_witness(pid, cfg, sup, seed, work, units)
         except Exception as e:
             log('witness search failed: %s' % e)
         for f in sup[:4]:
